@@ -142,6 +142,9 @@ Init ==
                        heights |-> IF nl = 1 THEN <<1>> ELSE <<0, 1>>]
        \/ \E m1 \in Asym3 \cup {Grid(3)}, g1 \in BOOLEAN, o1 \in {<<0,0>>, <<4,4>>} :
              cfg = [nw |-> 1, masks |-> <<m1>>, n |-> <<3>>, lgs |-> <<g1>>, off |-> <<o1>>, heights |-> <<0, 1>>]
+       \/ \E m1 \in Rep2, m2 \in {Grid(2), {<<0,0>>, <<0,1>>, <<1,0>>}}, o1 \in {<<0,0>>, <<0,-4>>}, o2 \in {<<4,0>>, <<4,4>>} :
+             \* two elevated layers, natural guide stars only (translations must not accumulate from one layer to the next)
+             cfg = [nw |-> 2, masks |-> <<m1, m2>>, n |-> <<2, 2>>, lgs |-> <<FALSE, FALSE>>, off |-> <<o1, o2>>, heights |-> <<1, 2>>]
        \/ /\ Scope = "thorough"
           /\ \E m1 \in Rep2, m2 \in Rep2, m3 \in {Grid(2), {<<0,1>>, <<1,0>>, <<1,1>>}}, g \in [1..3 -> BOOLEAN], o2 \in Offsets, o3 \in {<<0,0>>, <<-4,4>>} :
                 cfg = [nw |-> 3, masks |-> <<m1, m2, m3>>, n |-> <<2, 2, 2>>, lgs |-> <<g[1], g[2], g[3]>>, off |-> << <<0,0>>, o2, o3>>,
